@@ -200,6 +200,9 @@ func (rds *RaftDiskStorage) Entries(lo, hi, maxSize uint64) ([]raftpb.Entry, err
 }
 
 func (rds *RaftDiskStorage) GetFirstLast() (uint64, uint64) {
+	// the next slot of the current file is written under rds.lock (Save)
+	rds.lock.Lock()
+	defer rds.lock.Unlock()
 	return rds.entryLog.firstIndex(), rds.entryLog.lastIndex()
 }
 
@@ -299,11 +302,17 @@ func (rds *RaftDiskStorage) CreateSnapshot(i uint64, cs *raftpb.ConfState, data 
 }
 
 func (rds *RaftDiskStorage) DeleteBefore(index uint64) error {
+	// The list of files and the current file are read and written under rds.lock by every other operation (Save rotates,
+	// EntrySize and Entries walk the files): the apply path must not change them behind their back.
+	rds.lock.Lock()
+	defer rds.lock.Unlock()
 	// Now we delete all the files which are below the snapshot index.
 	return rds.entryLog.deleteBefore(index)
 }
 
 func (rds *RaftDiskStorage) SlotGe(index uint64) (int, int) {
+	rds.lock.Lock()
+	defer rds.lock.Unlock()
 	return rds.entryLog.slotGe(index)
 }
 
